@@ -341,9 +341,14 @@ impl Check for C08 {
         tier.pick(800, 10_000)
     }
     fn required_counters(&self, _tier: Tier) -> Vec<&'static str> {
-        vec!["timeouts-observed", "progress-phases", "batch-steps", "single-key-ads", "multi-key-ads"]
+        vec!["timeouts-observed", "progress-phases", "batch-steps", "single-key-ads", "multi-key-ads", "driver:advertisements", "driver:refusals-when-full", "driver:fetch-events-after-full", "driver:periodic-lists-with-one-missing-record"]
     }
     fn run_case(&self, cx: &mut Cx) {
+        // every 6th case drives the fetcher through its real callers in the SwarmDriver (Replicate handler,
+        // PutLocalRecord handler) instead of calling it directly
+        if cx.index % 6 == 5 {
+            return driver_case(cx);
+        }
         let rt = tokio::runtime::Builder::new_current_thread().enable_all().build().expect("rt");
         let me = PeerId::from(crate::c13::keypair(&mut cx.rng).public());
         let nh = cx.rng.gen_range(2..=5);
@@ -518,4 +523,176 @@ impl Check for C08 {
             r.cx.sample(json!({"universe": nk, "holders": nh, "calls": n, "first_calls": head}));
         }
     }
+}
+
+/// The fetcher behind its real callers: a real node SwarmDriver with a small store, a responsible range,
+/// holders among its closest peers; advertisements go through the real Replicate handler and arrivals
+/// through the real PutLocalRecord handler (which reports fullness to the fetcher and schedules the next
+/// fetches). Judged on the KeysToFetchForReplication events the driver emits.
+fn driver_case(cx: &mut Cx) {
+    use crate::sim::{Policy, Sim};
+    use ant_networking::verif::LocalSwarmCmd;
+    use ant_networking::NetworkEvent;
+    use libp2p::kad::Record;
+    let root = scratch_dir("c08d");
+    let mut sim = Sim::new(cx.rng.gen(), false);
+    sim.policy = Policy::Fifo;
+    sim.set_gates_controlled(false);
+    sim.auto_events = false;
+    let kp = crate::gen::ed_keypair(&mut cx.rng);
+    sim.add_node(kp, root.clone(), false);
+    let me = sim.nodes[0].peer;
+    let holders: Vec<PeerId> = (0..3).map(|_| PeerId::from(crate::gen::ed_keypair(&mut cx.rng).public())).collect();
+    sim.add_rt_peers(0, &holders);
+    let cap = cx.rng.gen_range(4..=8usize);
+    sim.nodes[0].drv.verif_store_mut().expect("store").verif_set_limits(cap, 4);
+    // a key universe sorted by distance: the store gets the closest ones
+    let mut pool: Vec<(D32, Vec<u8>)> = (0..120).map(|_| cx.rng.gen::<[u8; 32]>().to_vec()).map(|k| (ref_distance(&me.to_bytes(), &k), k)).collect();
+    pool.sort();
+    let dist_of = |k: &[u8]| ref_distance(&me.to_bytes(), k);
+    let value_of = |k: &[u8]| {
+        let mut v = vec![0x91u8, 1, 0xc4, 8];
+        v.extend(&k[..8]);
+        v
+    };
+    let drain = |sim: &mut Sim| {
+        for _ in 0..10_000 {
+            if !sim.step() {
+                break;
+            }
+        }
+        sim.collect();
+    };
+    let mut held: BTreeSet<Vec<u8>> = BTreeSet::new();
+    let fill = cx.rng.gen_range(cap - 2..=cap);
+    for (_, k) in pool.iter().take(fill) {
+        let _g = sim.rt.enter();
+        let _ = sim.nodes[0].drv.verif_handle_local_cmd(LocalSwarmCmd::PutLocalRecord { record: Record { key: RecordKey::from(k.clone()), value: value_of(k), publisher: None, expires: None } });
+        held.insert(k.clone());
+    }
+    drain(&mut sim);
+    sim.nodes[0].event_q.clear();
+    // responsible range: somewhere in the middle of the remaining universe
+    let range: Option<D32> = if cx.rng.gen_bool(0.7) {
+        let r = pool[cx.rng.gen_range(cap + 5..100)].0;
+        sim.nodes[0].drv.verif_set_distance_range(to_u256(&r));
+        Some(r)
+    } else {
+        None
+    };
+    let rest: Vec<Vec<u8>> = pool.iter().skip(cap).map(|(_, k)| k.clone()).collect();
+    let mut seen_single: BTreeSet<Vec<u8>> = BTreeSet::new();
+    let mut advertised: BTreeSet<Vec<u8>> = BTreeSet::new();
+    let mut fetched: Vec<Vec<u8>> = vec![];
+    let mut full_bound: Option<D32> = None; // farthest held distance at the (closest) MaxRecords refusal
+    let mut hist: Vec<serde_json::Value> = vec![];
+    let steps = cx.rng.gen_range(6..=16);
+    for step in 0..steps {
+        let snap_keys: BTreeSet<Vec<u8>> = sim.nodes[0].drv.verif_store_mut().expect("store").verif_snapshot().records.iter().map(|(k, _, _)| k.to_vec()).collect();
+        held = snap_keys.clone();
+        let farthest_held: Option<D32> = held.iter().map(|k| dist_of(k)).max();
+        let choice = cx.rng.gen_range(0..10);
+        if choice < 6 || fetched.is_empty() {
+            // an advertisement through the real Replicate handler
+            let holder = *holders.choose(&mut cx.rng).expect("holders");
+            let mode = cx.rng.gen_range(0..4);
+            let mut list: Vec<Vec<u8>> = vec![];
+            match mode {
+                0 => list.push(rest.choose(&mut cx.rng).expect("rest").clone()), // fresh single key
+                1 => {
+                    // periodic list in which exactly one record is missing locally (often out of range)
+                    let n_held = cx.rng.gen_range(1..=held.len().max(1).min(4));
+                    list.extend(held.iter().take(n_held).cloned());
+                    let far_half: Vec<&Vec<u8>> = rest.iter().skip(rest.len() / 2).collect();
+                    let pick = if cx.rng.gen_bool(0.7) { (*far_half.choose(&mut cx.rng).expect("far")).clone() } else { rest.choose(&mut cx.rng).expect("rest").clone() };
+                    list.push(pick);
+                    cx.count("driver:periodic-lists-with-one-missing-record");
+                }
+                2 => {
+                    // a long periodic list (more than the parallel-fetch limit)
+                    let n = cx.rng.gen_range(21..=40);
+                    list.extend(rest.choose_multiple(&mut cx.rng, n).cloned());
+                    list.extend(held.iter().take(2).cloned());
+                }
+                _ => {
+                    let n = cx.rng.gen_range(2..=8);
+                    list.extend(rest.choose_multiple(&mut cx.rng, n).cloned());
+                }
+            }
+            list.shuffle(&mut cx.rng);
+            if list.len() == 1 {
+                seen_single.insert(list[0].clone());
+            }
+            advertised.extend(list.iter().cloned());
+            cx.count("driver:advertisements");
+            hist.push(json!({"advert": list.len(), "from": holders.iter().position(|h| *h == holder)}));
+            let adv: Vec<(NetworkAddress, RecordType)> = list.iter().map(|k| (NetworkAddress::from_record_key(&RecordKey::from(k.clone())), RecordType::Chunk)).collect();
+            let _g = sim.rt.enter();
+            sim.nodes[0].drv.verif_handle_replicate(NetworkAddress::from_peer(holder), adv);
+        } else {
+            // a fetched record arrives: the real PutLocalRecord handler (far ones are refused once the store is full)
+            let k = if cx.rng.gen_bool(0.7) {
+                // the farthest of the fetches in flight: the one a full store refuses
+                fetched.iter().max_by_key(|k| dist_of(k)).cloned().expect("fetched")
+            } else {
+                fetched.choose(&mut cx.rng).cloned().expect("fetched")
+            };
+            fetched.retain(|x| *x != k);
+            let res = {
+                let _g = sim.rt.enter();
+                sim.nodes[0].drv.verif_handle_local_cmd(LocalSwarmCmd::PutLocalRecord { record: Record { key: RecordKey::from(k.clone()), value: value_of(&k), publisher: None, expires: None } })
+            };
+            // the handler returns the store's MaxRecords error for a refused record (an accepted one is indexed only
+            // after its disk write has been acknowledged, so the index cannot be used to tell)
+            let refused = res.is_err();
+            hist.push(json!({"arrival_d_rank": pool.iter().position(|(_, x)| *x == k), "refused": refused}));
+            if refused && held.len() >= cap {
+                cx.count("driver:refusals-when-full");
+                if let Some(f) = farthest_held {
+                    full_bound = Some(full_bound.map(|b: D32| b.min(f)).unwrap_or(f));
+                }
+            }
+        }
+        drain(&mut sim);
+        // ---- judge the fetch events of this step
+        let now_held: BTreeSet<Vec<u8>> = sim.nodes[0].drv.verif_store_mut().expect("store").verif_snapshot().records.iter().map(|(k, _, _)| k.to_vec()).collect();
+        let events: Vec<NetworkEvent> = sim.nodes[0].event_q.drain(..).collect();
+        for ev in events {
+            let NetworkEvent::KeysToFetchForReplication(keys) = ev else { continue };
+            for (holder, key) in keys {
+                cx.eval();
+                let k = key.to_vec();
+                let w = json!({"step": step, "history": hist, "capacity": cap, "range_set": range.is_some()});
+                if !holders.contains(&holder) {
+                    cx.violation("driver:fetch-from-unknown-holder", "a fetch names a holder that never advertised".to_string(), w.clone());
+                }
+                if !advertised.contains(&k) {
+                    cx.violation("driver:fetch-of-unadvertised-key", "a fetch for a key nobody advertised".to_string(), w.clone());
+                }
+                if now_held.contains(&k) && held.contains(&k) {
+                    cx.violation("driver:fetch-of-held-record", "a fetch was scheduled for a record the store already holds".to_string(), w.clone());
+                }
+                if let Some(r) = range {
+                    if !seen_single.contains(&k) && dist_of(&k) > r {
+                        cx.violation("driver:periodic-advertisement-fetched-out-of-range", format!("a record known only from multi-record advertisements lies outside the responsible range and was fetched (step {step})"), w.clone());
+                    }
+                }
+                if let Some(b) = full_bound {
+                    cx.count("driver:fetch-events-after-full");
+                    if dist_of(&k) > b {
+                        cx.violation("driver:fetch-beyond-farthest-after-full", format!("after the store had refused a record as full, a fetch was scheduled for a record farther than the farthest held one (step {step})"), w.clone());
+                    }
+                }
+                if !fetched.contains(&k) {
+                    fetched.push(k);
+                }
+            }
+        }
+    }
+    cx.nontrivial(&("driver", h64(&serde_json::to_string(&hist).unwrap_or_default())));
+    if cx.index % 60 == 5 {
+        cx.sample(json!({"driver_case": hist}));
+    }
+    drop(sim);
+    let _ = std::fs::remove_dir_all(&root);
 }
